@@ -56,12 +56,46 @@ def _norm(test: ast.expr, decision: bool):
     return ("cond", test, decision)
 
 
+def _decisions(test: ast.expr, want: bool):
+    """All short-circuit ways in which `test` evaluates to `want`, each as a list of atomic ("cond", atom, decision) steps.
+    `if a and b:` taken is [a True, b True]; not taken is [a False] or [a True, b False] - exactly the decisions of the
+    nested form `if a: if b:`, so merged and nested conditions give the same paths. A compound test is additionally
+    preceded by a ("cond", test, want) step for the test as a whole (rules may look at either)."""
+    while isinstance(test, ast.UnaryOp) and isinstance(test.op, ast.Not):
+        test, want = test.operand, not want
+    if isinstance(test, ast.BoolOp):
+        conj = isinstance(test.op, ast.And)
+        if want == conj:            # all operands take the value `want`
+            alts = [[]]
+            for v in test.values:
+                alts = [a + b for a in alts for b in _decisions(v, want)]
+            return alts
+        out = []                    # the first operand that decides, all earlier ones having the other value
+        for i, v in enumerate(test.values):
+            pre = [[]]
+            for u in test.values[:i]:
+                pre = [a + b for a in pre for b in _decisions(u, not want)]
+            out += [a + b for a in pre for b in _decisions(v, want)]
+        return out
+    return [[("cond", test, want)]]
+
+
+def _branch(test: ast.expr, want: bool):
+    while isinstance(test, ast.UnaryOp) and isinstance(test.op, ast.Not):
+        test, want = test.operand, not want
+    compound = isinstance(test, ast.BoolOp)
+    for d in _decisions(test, want):
+        yield ([("cond", test, want)] if compound else []) + d
+
+
 def _stmt(s: ast.stmt, loops: int) -> Iterator[Tuple[Path, str]]:
     if isinstance(s, ast.If):
         for steps, out in _seq(s.body, loops):
-            yield [_norm(s.test, True)] + steps, out
+            for pre in _branch(s.test, True):
+                yield pre + steps, out
         for steps, out in _seq(s.orelse, loops):
-            yield [_norm(s.test, False)] + steps, out
+            for pre in _branch(s.test, False):
+                yield pre + steps, out
     elif isinstance(s, (ast.For, ast.AsyncFor)):
         yield from _loop(s, loops, is_for=True)
     elif isinstance(s, ast.While):
